@@ -217,11 +217,19 @@ package cpumem
 //@                  && forall m string :: seen(m) ==> actuallyWorkloadsUsage.NUMAMemory[m] == nodeResourceInfo.Usage.NUMAMemory[m])
 //@     invariant forall m string :: seen(m) ==> m in nodeResourceInfo.Capacity.NUMAMemory
 
-//@ # writing a node record (Validate + JSON + etcd): assumed to replace the record's Capacity/Usage by deep copies and nothing else
+//@ # writing a node record: Validate, JSON, etcd. A record that Validate rejects is never written; a record that is
+//@ # written has usage within capacity on every core (Validate's contract). JSON encoding and the store are unconstrained.
 //@ func (Plugin) doSetNodeResourceInfo
-//@   trusted
-//@   requires resourceInfo != nil
+//@   requires resourceInfo != nil && allocated(resourceInfo) && (resourceInfo.Capacity == nil || allocated(resourceInfo.Capacity))
+//@        && (resourceInfo.Usage == nil || (allocated(resourceInfo.Usage) && resourceInfo.Usage != resourceInfo.Capacity))
 //@   modifies resourceInfo
+//@   ensures[C15.set-validated,C04] called(NodeResourceInfo.Validate) == 1 && (res(NodeResourceInfo.Validate) != nil ==> called(KV.Put) == 0 && result != nil)
+//@   ensures[C15.set-once,C04] called(KV.Put) <= 1 && (result == nil ==> called(KV.Put) == 1 && res(NodeResourceInfo.Validate) == nil)
+//@   ensures[C15.set-valid,C04] result == nil && old(resourceInfo.Usage) != nil ==> old(resourceInfo.Capacity) != nil
+//@        && old(forall c string :: c in resourceInfo.Usage.CPUMap ==> c in resourceInfo.Capacity.CPUMap && resourceInfo.Usage.CPUMap[c] <= resourceInfo.Capacity.CPUMap[c])
+
+//@ func (KV) Put
+//@   ensures true
 
 //@ func (Plugin) FixNodeResource
 //@   requires wlList(workloadsResource)
